@@ -605,7 +605,8 @@ def check_c19(case, stats=None):
                 continue
             # (a subscription by regular expression matching the system topic counts like the literal one)
             iv = [(s0, s1, fl) for (mm, t, s0, s1, fl) in subs_t if mm == m and t is not None and topic_matches(t, topic)]
-            ok = any(s0 < min(i, b) - 3 and (s1 is None or s1 > e) and not (fl & (SRC_LOW | SRC_ONESHOT)) for (s0, s1, fl) in iv)
+            # (a low-priority subscription only delays the hand-over: what is held back is flushed when the run ends)
+            ok = any(s0 < min(i, b) - 3 and (s1 is None or s1 > e) and not (fl & SRC_ONESHOT) for (s0, s1, fl) in iv)
             if not ok:
                 continue
             # a one-shot subscription that matches too may be the one a message is attached to when it is sent (the literal one
